@@ -74,8 +74,27 @@ def _progs(tier: str) -> List[Dict[str, Any]]:
     return out
 
 
+def _fx_progs(tier: str) -> List[Dict[str, Any]]:
+    """tier A: the backend called directly on hand-built FX graphs, in which unit-scaled ops are
+    leaf nodes (U.linear / U.scaled_dot_product_attention), as after unit_scale()"""
+    out: List[Dict[str, Any]] = []
+    for k in ALL:
+        for f in FORMATS:
+            out.append({"prog": {"items": [["op", k]], "sink": "sum"}, "fmt": f})
+    for n, (a, b) in enumerate(itertools.product(ALL, ALL)):
+        out.append({"prog": {"items": [["op", a], ["op", b]], "sink": "sum"}, "fmt": FORMATS[1 + n % 3]})
+    if tier == "thorough":
+        from models.programs import chains
+
+        for n, items in enumerate(chains(SMALL, 3)):
+            if len(items) == 3:
+                out.append({"prog": {"items": items, "sink": "sum"}, "fmt": FORMATS[1 + n % 3]})
+    return out
+
+
 def cases(tier: str, seed: int) -> List[Dict[str, Any]]:
     out = [dict(c, kind="prog", seed=seed) for c in _progs(tier)]
+    out += [dict(c, kind="fx", seed=seed) for c in _fx_progs(tier)]
     for f in ("E4M3rn", "E5M2rn", "E2M1rn", "E8M23rn", "E5M2sr3"):
         for shape in ([], [7], [3, 5], [2, 3, 4]):
             out.append({"kind": "prim", "fmt": f, "shape": shape})
@@ -159,10 +178,22 @@ def run_case(case: Dict[str, Any]) -> Dict[str, Any]:
     y_plain, g_plain = run(plain_m, plain_m)
     captured: List[Any] = []
     try:
-        t = simulate_fp8(m) if fname == "fp8_api" else simulate_format(m, fwd, bwd)
-        t.backends.append(lambda gm, ex: (captured.append(gm), gm)[1])
-        torch._dynamo.reset()
-        y_imp, g_imp = run(t, t)
+        if case["kind"] == "fx":
+            import torch.nn as nn
+            from models.programs import to_fx
+
+            ident = "fx|" + ident
+            gm = to_fx(prog, m)
+            holder = simulate_fp8(nn.Sequential()) if fname == "fp8_api" else simulate_format(nn.Sequential(), fwd, bwd)
+            backend = holder.backends[-1]  # the library's own backend object, not imported by name
+            t = backend(gm, [])
+            captured.append(t)
+            y_imp, g_imp = run(m, t)
+        else:
+            t = simulate_fp8(m) if fname == "fp8_api" else simulate_format(m, fwd, bwd)
+            t.backends.append(lambda gm, ex: (captured.append(gm), gm)[1])
+            torch._dynamo.reset()
+            y_imp, g_imp = run(t, t)
     except Exception as e:  # noqa
         v = exception_violation(e, ident)
         v["msg"] += "\n" + src
